@@ -50,8 +50,13 @@ def initial_files() -> T.Tuple[L.Files, L.Files]:
 
 
 def initial_dopts() -> T.Dict[str, T.Dict[str, str]]:
-    """default_options: of the two project() calls (never name an option that an edit adds later)."""
-    return {'': {'warning_level': '2', 'ds': 'dsdo'}, 'sub': {'werror': 'true', 'dt': 'dtdo'}}
+    """default_options: of the project() calls (never name an option that an edit adds later)."""
+    return {'': {'warning_level': '2', 'ds': 'dsdo'}, 'sub': {'werror': 'true', 'dt': 'dtdo'}, 'late': {'unity_size': '8', 'lv': 'lvdo'}}
+
+
+def late_files() -> L.Files:
+    """Option file of the subproject that is only reached while use_late is true."""
+    return {'lv': L.Spec('lv', 'string', 'lv0'), 'lc': L.Spec('lc', 'combo', 'p', choices=['p', 'q', 'r'])}
 
 
 def _do(d: T.Mapping[str, str]) -> str:
@@ -65,6 +70,8 @@ def render_project(m: L.Model) -> T.Dict[str, str]:
     for n in list(top) + bi:
         t.append(f"message('OPT {n}=@0@'.format(get_option('{n}')))")
     t.append("subproject('sub')")
+    if 'late' in m.files:
+        t.append("if get_option('use_late')\n  subproject('late')\nendif")
     t.append("if import('fs').exists(meson.current_source_dir() / 'FAIL')\n  error('injected configuration failure')\nendif")
     # a failure that only the backend detects, i.e. AFTER coredata has been dumped (needs the .prev restore path)
     t.append("if import('fs').exists(meson.current_source_dir() / 'FAIL2')\n"
@@ -73,12 +80,19 @@ def render_project(m: L.Model) -> T.Dict[str, str]:
     s = ["project('sub', meson_version: '>=1.1'%s)" % _do(m.dopts['sub'])]
     for n in list(sub) + bi:
         s.append(f"message('OPT sub:{n}=@0@'.format(get_option('{n}')))")
-    return {
+    out = {
         'meson.build': '\n'.join(t) + '\n',
         'meson.options': ''.join(sp.decl() + '\n' for sp in top.values()),
         'subprojects/sub/meson.build': '\n'.join(s) + '\n',
         'subprojects/sub/meson.options': ''.join(sp.decl() + '\n' for sp in sub.values()),
     }
+    if 'late' in m.files:
+        lt = ["project('late', meson_version: '>=1.1'%s)" % _do(m.dopts.get('late', {}))]
+        for n in list(m.files['late']) + bi:
+            lt.append(f"message('OPT late:{n}=@0@'.format(get_option('{n}')))")
+        out['subprojects/late/meson.build'] = '\n'.join(lt) + '\n'
+        out['subprojects/late/meson.options'] = ''.join(sp.decl() + '\n' for sp in m.files['late'].values())
+    return out
 
 
 class Gen:
@@ -128,6 +142,8 @@ class Gen:
         ks = []
         for sub in ('', 'sub'):
             for n, sp in src[sub].items():
+                if n == 'use_late':
+                    continue        # only ever switched on, by late_extra()
                 if m.st.configured:
                     # an option whose declaration was edited but not yet re-read: whether the same command may
                     # already set it by the new declaration differs between configure and reconfigure and is not
@@ -157,6 +173,23 @@ class Gen:
                 spec = m.files[sub][name]
             out[k] = self.value_for(spec, valid=r.random() >= p_invalid)
         return out
+
+    def late_extra(self, m: L.Model, kind: str, assign: T.Dict[str, str], r: random.Random) -> None:
+        """Options of / the switch for the late subproject.  `-Dlate:x=v` for a subproject the build directory does not know
+        yet is only accepted by a first configuration (setup, --wipe); afterwards only once `late` has been configured."""
+        if 'late' not in m.files:
+            return
+        if r.random() < 0.22:
+            assign['use_late'] = 'true'
+        if (kind in ('setup', 'wipe') or m.st.late) and r.random() < 0.3:
+            k = r.choice(['late:lv', 'late:lc', 'late:warning_level', 'late:unity_size', 'late:lv'])
+            sub, _, name = k.rpartition(':')
+            if name in L.BUILTINS:
+                b = L.BUILTINS[name]
+                spec = L.Spec(name, b['kind'], b['default'], b.get('choices'), b.get('min'), b.get('max'))
+            else:
+                spec = m.files['late'][name]
+            assign[k] = self.value_for(spec)
 
     def edit_directed(self, m: L.Model, what: str) -> T.Dict[str, T.Any]:
         if what == 'remove-parent-y':
@@ -192,7 +225,7 @@ class Gen:
             # in the subproject really everything goes (zero declarations left); at top level the parents of the
             # yielding options go too in one case out of three (known finding: children keep a stale parent)
             keep = () if (sub == 'sub' or r.random() < 0.33) else ('y', 'yc')
-            names = [n for n in f if n not in keep]
+            names = [n for n in f if n not in keep and n != 'use_late']
             for n in names:
                 del f[n]
                 m.dopts[sub].pop(n, None)
@@ -206,7 +239,7 @@ class Gen:
                         'integer': L.Spec(name, 'integer', '7', min=0, max=20), 'combo': L.Spec(name, 'combo', 'm', choices=['l', 'm', 'n'])}[k]
                 f[name] = spec
                 return {'edit': 'add', 'sub': sub, 'name': name, 'kind': k}
-            cands = [n for n in f if n not in ('y', 'yc')]
+            cands = [n for n in f if n not in ('y', 'yc', 'use_late')]
             if not cands:
                 continue
             name = r.choice(cands)
@@ -291,7 +324,7 @@ def flags(assign: T.Mapping[str, str], unset: T.Sequence[str] = ()) -> T.List[st
     return [f'-D{k}={v}' for k, v in assign.items()] + [f'-U{k}' for k in unset]
 
 
-_MSG = re.compile(r'^(?:sub\| )?Message: OPT ([\w:]+)=(.*)$', re.M)
+_MSG = re.compile(r'^(?:\w+\| )?Message: OPT ([\w:]+)=(.*)$', re.M)
 
 
 def msg_form(spec_kind: str, v: str) -> str:
@@ -347,7 +380,11 @@ def run_history(job: T.Tuple[int, int, str, T.Optional[T.List[dict]]]) -> dict:
     top, sub = initial_files()
     # two histories out of three have default_options: in both project() calls (own random stream: the histories of earlier
     # versions of this check stay what they were)
-    m = L.Model(top, sub, initial_dopts() if random.Random(seed ^ 0xD0).random() < 0.67 else None)
+    r2 = random.Random(seed ^ 0xD0)
+    with_late = r2.random() < 0.6
+    if with_late:
+        top['use_late'] = L.Spec('use_late', 'boolean', 'false')
+    m = L.Model(top, sub, initial_dopts() if r2.random() < 0.67 else None, late_files() if with_late else None)
     base = os.path.join(root, f'h{seed}')
     src, b = os.path.join(base, 'src'), os.path.join(base, 'b')
     res: T.Dict[str, T.Any] = {'seed': seed, 'steps': [], 'problems': [], 'paths': {}, 'checked_values': 0, 'checked_msgs': 0,
@@ -390,6 +427,7 @@ def run_history(job: T.Tuple[int, int, str, T.Optional[T.List[dict]]]) -> dict:
             if os.path.exists(os.path.join(src, flag)):
                 os.unlink(os.path.join(src, flag))
         expect_ok = True
+        late_before = m.st.late
         argv: T.List[str] = []
         if kind == 'edit':
             e = gen.edit_directed(m, forced['what']) if forced is not None else gen.edit(m)
@@ -418,6 +456,7 @@ def run_history(job: T.Tuple[int, int, str, T.Optional[T.List[dict]]]) -> dict:
             step = {'step': 'reconfigure', 'assign': fa, 'inject_failure': False}
         elif kind == 'setup':
             assign = gen.assignment(m, rng.randint(0, 4), 0.12, 0.05)
+            gen.late_extra(m, 'setup', assign, r2)
             inject = rng.random() < 0.1
             expect_ok = m.setup(assign, inject)
             argv = ['setup', b, src] + flags(assign)
@@ -425,7 +464,10 @@ def run_history(job: T.Tuple[int, int, str, T.Optional[T.List[dict]]]) -> dict:
         elif kind == 'configure':
             assign = gen.assignment(m, rng.randint(1, 3), 0.12, 0.04)
             unset = []
+            gen.late_extra(m, 'configure', assign, r2)
             overrides = [k for k in ('sub:warning_level', 'sub:werror') if k in m.st.user]
+            if m.st.late:
+                overrides += [k for k in ('late:warning_level', 'late:unity_size') if k in m.st.user]
             if overrides and rng.random() < 0.6:
                 # -U of an override that does not exist is rejected by meson (documents silent): only existing ones
                 unset = [rng.choice(overrides)]
@@ -439,6 +481,7 @@ def run_history(job: T.Tuple[int, int, str, T.Optional[T.List[dict]]]) -> dict:
             step = {'step': 'configure', 'assign': assign, 'unset': unset}
         elif kind == 'reconfigure':
             assign = gen.assignment(m, rng.randint(0, 3), 0.1, 0.12)
+            gen.late_extra(m, 'reconfigure', assign, r2)
             inject = rng.random() < 0.15
             expect_ok = m.reconfigure(assign, inject)
             argv = ['setup', '--reconfigure', b, src] + flags(assign)
@@ -467,6 +510,8 @@ def run_history(job: T.Tuple[int, int, str, T.Optional[T.List[dict]]]) -> dict:
                     spec = m._spec_for(k, m.files) if (name in L.BUILTINS or name in m.files.get(subn, {})) else None
                     if spec is not None:
                         wassign[k] = gen.value_for(spec)
+            if m.st.configured:
+                gen.late_extra(m, 'wipe', wassign, r2)
             expect_ok = m.wipe(inject, wassign)
             argv = ['setup', '--wipe', b, src] + flags(wassign)
             step = {'step': 'wipe', 'inject_failure': inject, 'restored': kind == 'restore-and-wipe', 'assign': wassign}
@@ -475,6 +520,8 @@ def run_history(job: T.Tuple[int, int, str, T.Optional[T.List[dict]]]) -> dict:
             step['failure_kind'] = rng.choice(['FAIL', 'FAIL2'])
             open(os.path.join(src, step['failure_kind']), 'w').close()
         note(step['step'] + (':expected-fail' if not expect_ok else ''))
+        if m.st.late and not late_before and expect_ok:
+            note('late-subproject-first-configured-by:' + step['step'] + ('+recorded-options' if any(k.startswith('late:') for k in m.st.record) else ''))
         rr = runner.meson(argv, cwd=src, monitors=[monitors])
         for rec in rr.records:
             for k, v in rec.get('paths', {}).items():
